@@ -485,6 +485,12 @@ class Body:
                 and alldefs[0][1] != "T" and self.blocks[alldefs[0][0]]["stmts"][alldefs[0][1]]["exp"]:
             # the hidden iterator binding of a `for` loop: inline its single definition
             return self.rec_def(alldefs[0], depth + 1)
+        if name is not None and not is_param and len(alldefs) == 1 and alldefs[0][1] != "T" and self.locals[l]["ty"].startswith("&") \
+                and not self.mutref.get(l) and all(self._deref_first(w) for w in self.partial.get(l, [])):
+            # a named reference that is bound once (`let fp = &mut x.f;`): an alias; writes through it are writes to the pointee
+            rv = self.blocks[alldefs[0][0]]["stmts"][alldefs[0][1]]["rv"]
+            if rv["k"] in ("ref", "use"):
+                return self.rec_def(alldefs[0], depth + 1)
         if name is not None and not mutated and not is_param and len(alldefs) > 1:
             # `let x = if c {a} else {b}`: join of the reaching definitions; loop-carried updates fall back to a leaf
             sites = self.defs_reaching(l, bb, idx)
@@ -510,6 +516,15 @@ class Body:
                 e = ("mutated", e)
             return e
         return mk_phi([self.rec_def(s, depth + 1) for s in sites])
+
+    def _deref_first(self, site):
+        bb, idx = site
+        if idx == "T":
+            pl = self.blocks[bb]["term"]["dest"]
+        else:
+            st = self.blocks[bb]["stmts"][idx]
+            pl = st["place"]
+        return bool(pl["p"]) and pl["p"][0]["k"] == "deref"
 
     def rec_def(self, site, depth=0):
         key = ("def", site)
